@@ -167,6 +167,23 @@ def analyse_reallocate(F, f, template):
             cur = {"where": loc(m), "cursor": cursor_block, "starts": start_blocks, "set_start": set(), "set_size": set(), "size_param": set(), "advance_param": set()}
             stanzas.append(cur)
             continue
+        # the copy loop may have been extracted into a helper: a call handed one block's cursor and start opens a stanza too
+        ee0 = peel(e)
+        if ee0.get("k") in ("Call", "MethodCall"):
+            cbs, sbs = set(), set()
+            for a in call_args(ee0):
+                pa = peel(a)
+                if pa.get("k") == "Path" and pa.get("res") == "local" or pa.get("k") == "Field":
+                    b1 = block_of_local_member(a, "cursor")
+                    b2 = block_of_local_member(a, "start")
+                    if b1:
+                        cbs.add(b1)
+                    if b2:
+                        sbs.add(b2)
+            if cbs and sbs:
+                cur = {"where": loc(ee0), "cursor": sorted(cbs)[0] if len(cbs) == 1 else "/".join(sorted(cbs)), "starts": sbs, "set_start": set(), "set_size": set(), "size_param": set(), "advance_param": set()}
+                stanzas.append(cur)
+                continue
         if cur is None:
             continue
         ee = peel(e)
@@ -309,7 +326,7 @@ def rule_W1(ctx):
         r.examine(("heap", p), True, {"fn": p, "writes_heap_via": sorted(hs)})
         if not any(p.startswith(a) or a in p for a in heap_allowed):
             r.finding(p, "heap-writer", ":".join(F.fns[p]["span"].split(":")[:2]), "obtains a mutable view of BasicGarnishData's raw heap (%s) but is not one of the reviewed store primitives" % ", ".join(sorted(hs)))
-    r.floor("functions writing the raw heap", len(writers), 8)
+    r.floor("functions writing the raw heap", len(writers), 3)
     # 2. stack heads of BasicGarnishData
     heads = {}
     for f in F.fns.values():
@@ -323,7 +340,7 @@ def rule_W1(ctx):
         r.examine(("heads", p), True, {"fn": p, "sets": sorted(hs)})
         if not any(a in p for a in head_allowed):
             r.finding(p, "stack-head-writer", ":".join(F.fns[p]["span"].split(":")[:2]), "writes a stack head (%s) but is not a push/pop trait method, pop_frame or the compactor" % ", ".join(sorted(hs)))
-    r.floor("functions writing the Basic stack heads", len(heads), 5)
+    r.floor("functions writing the Basic stack heads", len(heads), 2)
     # 3. SimpleGarnishData: the value list is only ever pushed to
     mut = {}
     for f in F.fns.values():
@@ -345,7 +362,7 @@ def rule_W1(ctx):
             for n in walk(f["hir"]):
                 if n.get("k") == "MethodCall" and n.get("m") == "push" and ("SimpleDataList" in n.get("recv_ty", "") or "Vec<garnish_lang_simple_data::data::SimpleData<" in n.get("recv_ty", "")):
                     n_push += 1
-    r.floor("push sites on the Simple value list", n_push, 5)
+    r.floor("push sites on the Simple value list", n_push, 1)
     for p, ms in sorted(mut.items()):
         r.examine(("simple", p), True, {"fn": p, "mutates_value_list_via": sorted(ms)})
         if not any(a in p for a in simple_allowed):
@@ -423,7 +440,7 @@ def rule_G4(ctx):
     for f in F.fns.values():
         if f["crate"] == "garnish_lang_runtime" and f.get("name") in ("index_list", "access_with_symbol") and f["kind"] != "Closure":
             scope.append(f)
-    r.floor("list lookup functions in scope", len(scope), 10)
+    r.floor("list lookup functions in scope", len(scope), 8)
     r.analysed["functions"] = sorted(f["path"] for f in scope)
     for f in scope:
         errs = _err_constructions(F, f)
@@ -519,7 +536,7 @@ def rule_T14(ctx):
                 continue
             seen.add(inst)
             r.finding(f["path"], inst, where, msg)
-    r.floor("match-based comparators in the data crate", total, 3)
+    r.floor("match-based comparators in the data crate", total, 1)
     for f in F.fns_in("gfixture::t14::"):
         if f["kind"] == "Closure":
             continue
